@@ -433,6 +433,37 @@ def deregister_only_own(ctx, rule='C03.deregister-only-own'):
     return res
 
 
+def _only_measured(fn, l, depth=0, seen=None):
+    """is the value in local l (a view of the map) used for nothing but taking its length -- directly, or through further derefs / reborrows / copies?"""
+    from facts import rvalue_places
+    seen = seen if seen is not None else set()
+    if l in seen or depth > 6:
+        return True
+    seen.add(l)
+    for b3 in fn.reachable_blocks():
+        t3 = fn.term(b3)
+        if t3['k'] == 'call' and any(op_local(x) == l for x in t3['args']):
+            c3 = callee_of(t3)
+            nm = last_seg(strip_generics(c3['path'])) if c3 else ''
+            if nm in ('len', 'is_empty'):
+                continue
+            if nm in ('deref', 'as_ref', 'borrow') and _only_measured(fn, t3['dest']['l'], depth + 1, seen):
+                continue
+            return False
+        if t3['k'] == 'drop':
+            continue
+        for st3 in fn.blocks[b3]['stmts']:
+            if st3['k'] != 'assign' or l not in {p_['l'] for p_ in rvalue_places(st3['rv'])}:
+                continue
+            k = st3['rv']['k']
+            if k in ('len',) or (k == 'un' and st3['rv'].get('op') == 'PtrMetadata'):
+                continue
+            if k in ('use', 'ref', 'rawptr', 'cast') and not st3['p']['pr'] and _only_measured(fn, st3['p']['l'], depth + 1, seen):
+                continue
+            return False
+    return True
+
+
 def private_map(ctx, rule='C03.private-map'):
     res = []
     F = ctx.facts
@@ -499,6 +530,11 @@ def private_map(ctx, rule='C03.private-map'):
                         ct = fn.term(a[1])
                         cc = callee_of(ct)
                         if cc and ('memmap2::Mmap' in (cc.get('self_ty') or '')):
+                            # a view of the map that is only measured (`self.pages.data.len()`) is no pointer into it: the flow-insensitive slice of a cast elsewhere in
+                            # the function picks the call up all the same
+                            only_len = _only_measured(fn, ct['dest']['l'])
+                            if only_len:
+                                continue
                             res.append(bad(rule, '%s | mutable pointer into the map' % fn.qual,
                                            'a pointer derived from the mapped file is cast to `%s` at %s: mapped pages must never be written through memory' % (to, fn.loc(bb, si)),
                                            where=fn.loc(bb, si)))
@@ -551,6 +587,73 @@ def snapshot_fixed(ctx, rule='C03.snapshot-fixed'):
     return res
 
 
+def snapshot_private(ctx, rule='C03.snapshot-private'):
+    """between its begin and its end a transaction consults nothing that other transactions can change: the shared state of the handle (the locks, atomics and cells of
+    DBInner) is touched only by begin, commit, the transaction's destructor and open.  A read entry point (get_bucket, get, cursors ...) that locks a DBInner field reads a
+    cache or index another transaction may have filled from a different snapshot"""
+    import re, c06
+    res = []
+    F = ctx.facts
+    try:
+        dbopen, cm, op = ctx.need('DBInner::open', 'Tx::commit', 'OpenOptions::open')
+        begin = ctx.need('begin-role')[0]
+    except AnchorError as e:
+        return [unresolved(rule, str(e))]
+    fields = {f['name']: f['ty'] for f in (F.adt_fields('DBInner') or [])}
+    shared = {n for n, ty in fields.items() if ty.startswith(('std::sync::Mutex<', 'std::sync::RwLock<')) or 'Atomic' in ty or 'Cell<' in ty}
+    f0 = floor(rule, 'lock / atomic / cell fields of DBInner', len(shared), 5)
+    if f0:
+        return [f0]
+    ACQ = re.compile(r'(Mutex::lock|Mutex::try_lock|RwLock::read|RwLock::write|RwLock::try_read|RwLock::try_write|atomic::Atomic\w*::\w+|cell::(Ref)?Cell::\w+)$')
+    touch = {}
+    nsites = 0
+    for f in F.fns:
+        du = None
+        for bb in f.reachable_blocks():
+            t = f.term(bb)
+            c = callee_of(t) if t['k'] in ('call', 'tailcall') else None
+            if not c or not t['args'] or not ACQ.search(strip_generics(c['path'])):
+                continue
+            du = du or ctx.du(f)
+            _, atoms = du.slice_operand(t['args'][0])
+            flds = sorted({fld for (adt, fld) in du.fields_in(atoms) if last_seg(adt) == 'DBInner' and fld in shared})
+            if flds:
+                nsites += 1
+                owner = f.owner if f.kind == 'Closure' else f
+                touch.setdefault(owner, []).append((f.loc(bb), flds[0]))
+    f0 = floor(rule, 'acquisitions of shared DBInner state in the crate', nsites, 8)
+    if f0:
+        res.append(f0)
+    drops = {g for g in F.fns if g.trait and g.trait.endswith('Drop') and g.name == 'drop'}
+    cut = {begin, cm, op, dbopen} | drops
+    cg = F.callgraph()
+    nentries = 0
+    seen = set()
+    for e in F.fns:
+        # (entries are the methods of what a client holds *inside* a transaction: Tx, buckets, cursors, iterators; DB-level calls such as a statistics getter are no transaction's view)
+        if e.kind == 'Closure' or not e.eff_pub or e in cut or not (e.self_adt and last_seg(e.self_adt) in c06.CARRIERS):
+            continue
+        nentries += 1
+        reach, todo = {e}, [e]
+        while todo:
+            x = todo.pop()
+            for y in cg.get(x, ()):
+                if y not in reach and y not in cut:
+                    reach.add(y)
+                    todo.append(y)
+        for g in sorted(reach, key=lambda h: h.path):
+            for loc, fld in touch.get(g, ()):
+                if (g.path, fld) in seen:
+                    continue
+                seen.add((g.path, fld))
+                res.append(bad(rule, '%s | consults DBInner.%s inside a transaction' % (g.qual, fld),
+                               '%s (reachable from the public %s without passing begin, commit, open or a destructor) acquires the shared field DBInner.%s at %s: what a transaction '
+                               'sees then depends on what other transactions did to that field since it began' % (g.qual, e.qual, fld, loc), where=loc))
+    if not any(not r.ok for r in res):
+        res.append(ok(rule, 'shared DBInner state (%d acquisitions) is touched only from begin, commit, open and destructors; %d public entries examined' % (nsites, nentries), sites=nsites))
+    return res
+
+
 def run(ctx, tier):
     results = []
     results += release_bound(ctx)
@@ -560,6 +663,7 @@ def run(ctx, tier):
     results += deregister_only_own(ctx)
     results += private_map(ctx)
     results += snapshot_fixed(ctx)
+    results += snapshot_private(ctx)
     import c04
     results += c04.atomic_begin(ctx, rule='C03.atomic-begin')
     import c13
@@ -586,6 +690,6 @@ def run(ctx, tier):
             'open-reader registry inside its critical section, and that bound is the OLDEST registered reader; (register) every successful read-only begin inserts exactly the tx_id of the Meta it keeps, writers '
             'never register; (sorted-registry) the registry is mutated only by order-preserving single-element operations and every push is followed by a sort; '
             '(deregister-only-own) Drop removes, for read-only transactions only, the one entry found by searching for its own id; (private-map) every transaction owns an '
-            'Arc of an immutable map cloned under the map lock and no pointer into the map is ever made mutable; plus the free-set discipline shared with C02; (cow.write-set) data writes go only to pages the transaction allocated; (single-root, snapshot-fixed) every view hangs off the transaction\'s own header copy and the fields of TxInner are stored only by the commit, which consumes the transaction. NOT decided: '
+            'Arc of an immutable map cloned under the map lock and no pointer into the map is ever made mutable; plus the free-set discipline shared with C02; (cow.write-set) data writes go only to pages the transaction allocated; (single-root, snapshot-fixed) every view hangs off the transaction\'s own header copy and the fields of TxInner are stored only by the commit, which consumes the transaction. (snapshot-private) methods of a transaction\'s handles never acquire the locks / atomics / cells of DBInner. NOT decided: '
             'the comparison inside release, reuse arithmetic, monotonicity of ids.'),
         assumptions=['transaction ids are monotone (run-time argument)', 'memmap2::Mmap is a read-only MAP_SHARED mapping'])
